@@ -25,6 +25,8 @@ import (
 type ConnManager struct {
 	m     map[uuid.UUID]*Conn
 	mutex *sync.RWMutex
+	// stopped is true from Stop until the next Start: no connection is added meanwhile.
+	stopped bool
 }
 
 // NewConnManager returns a connection map.
@@ -41,6 +43,17 @@ func (mgr *ConnManager) AddConn(c *Conn) {
 	defer mgr.mutex.Unlock()
 	uuid := c.UUID()
 	mgr.m[uuid] = c
+}
+
+// addConnIfRunning adds the specified connection unless the manager is stopped.
+func (mgr *ConnManager) addConnIfRunning(c *Conn) bool {
+	mgr.mutex.Lock()
+	defer mgr.mutex.Unlock()
+	if mgr.stopped {
+		return false
+	}
+	mgr.m[c.UUID()] = c
+	return true
 }
 
 // Conns returns the included connections.
@@ -72,6 +85,9 @@ func (mgr *ConnManager) RemoveConn(conn *Conn) error {
 
 // Start starts the connection manager.
 func (mgr *ConnManager) Start() error {
+	mgr.mutex.Lock()
+	defer mgr.mutex.Unlock()
+	mgr.stopped = false
 	return nil
 }
 
@@ -94,6 +110,11 @@ func (mgr *ConnManager) Close() error {
 
 // Stop closes all connections.
 func (mgr *ConnManager) Stop() error {
+	// A connection accepted from now on is closed instead of registered,
+	// so that none can slip in behind the connections closed below.
+	mgr.mutex.Lock()
+	mgr.stopped = true
+	mgr.mutex.Unlock()
 	if err := mgr.Close(); err != nil {
 		return err
 	}
